@@ -5,7 +5,10 @@ spec/Shred.tla (EC part) + spec/MC_Shred.tla:
   bytes : symbolic payloads (length x last three bytes over {0x00, 0x80, other}) through chunking and un-padding
   cases : (variant x slice x held shape x failure injection) through the receiver model; each case is
           printed with the verdict the specification demands and replayed into the four real shredders
-          (harness/src/shred_driver.rs)."""
+          (harness/src/shred_driver.rs)
+  hist  : every history of HistLen calls (shred / deshred / deshred one short x size classes) served by ONE
+          shredder object; each step must answer like a fresh object (EC_InstanceIndependent); replayed on a
+          single reused object per history."""
 import os
 import random
 
@@ -22,18 +25,21 @@ CONST = """CONSTANTS
   SweepExtra <- SweepExtraDef
   ShapeGrid = {grid}
   ShapeN <- ShapeNDef
+  HistLen = {hist_len}
+  HistSizes <- HistSizesDef
 CHECK_DEADLOCK FALSE
 """
 MAX_PADDED = 32 * 1024
 CASE_INVS = ["CaseWellFormed", "MixWellFormed", "C11_Limit", "C11_ShardArith", "C11_Receiver"]
 
 
-def defs(byte_lens, sweep_all, sweep_extra, shape_n):
+def defs(byte_lens, sweep_all, sweep_extra, shape_n, hist_sizes):
     def tset(xs):
         return "{" + ", ".join(xs) + "}"
     pairs = tset('<<"%s", %s>>' % (v, "TRUE" if p else "FALSE") for v, p in sweep_all)
-    return ("ByteLensDef == %s\nSweepAllDef == %s\nSweepExtraDef == %s\nShapeNDef == %s\n"
-            % (byte_lens, pairs, tset(str(x) for x in sorted(set(sweep_extra))), tset(str(x) for x in shape_n)))
+    return ("ByteLensDef == %s\nSweepAllDef == %s\nSweepExtraDef == %s\nShapeNDef == %s\nHistSizesDef == %s\n"
+            % (byte_lens, pairs, tset(str(x) for x in sorted(set(sweep_extra))), tset(str(x) for x in shape_n),
+               tset('"%s"' % x for x in hist_sizes)))
 
 
 def run(ctx):
@@ -51,6 +57,7 @@ def run(ctx):
         shape_n = [0, 1000]
         grid = "FALSE"
         subsets = {"shape": 6, "sweep": 1, "inject": 3}
+        hist_len, hist_sizes = 3, ["small", "max"]
         workers, threads = 6, 4
     else:
         byte_lens = "(0..1100) \\cup (2040..2120) \\cup (4090..4170) \\cup {32700, 32766, 32767}"
@@ -60,9 +67,10 @@ def run(ctx):
         shape_n = [0, 1000, 32600]
         grid = "TRUE"
         subsets = {"shape": 20, "sweep": 2, "inject": 8}
+        hist_len, hist_sizes = 4, ["small", "mid", "max"]
         workers, threads = 6, 6
-    wdefs = defs(byte_lens, sweep_all, sweep_extra, shape_n)
-    const = CONST.format(arith_max=MAX_PADDED + 64, grid=grid)
+    wdefs = defs(byte_lens, sweep_all, sweep_extra, shape_n, hist_sizes)
+    const = CONST.format(arith_max=MAX_PADDED + 64, grid=grid, hist_len=hist_len)
 
     # (i) arithmetic, every length
     arith_cfg = const + "INIT InitArith\nNEXT Next\n"
@@ -83,17 +91,27 @@ def run(ctx):
                 timeout=1200)
     r = ctx.tlc("cases", "MC_Shred", case_cfg + "INVARIANTS " + " ".join(CASE_INVS) + " EmitCase\n", wdefs,
                 workers=workers, timeout=2400)
-    rep = ctx.harness(["replay-shred", "--tlc-out", r.out_path, "--seed", ctx.seed, "--threads", threads,
+    # (iii) histories on one shredder object: leader / receiver / other shard sizes, in every order
+    hist_cfg = const + "INIT InitHist\nNEXT NextHist\n"
+    ctx.witness("hist", "MC_Shred", hist_cfg, wdefs, ["W_HistPattern"], workers=2)
+    rh = ctx.tlc("hist", "MC_Shred", hist_cfg + "INVARIANTS C11_History EmitHist\n", wdefs, workers=workers,
+                 timeout=2400)
+    n_hist = 4 * (3 * len(hist_sizes)) ** hist_len
+    rep = ctx.harness(["replay-shred", "--tlc-out", r.out_path, "--hist-out", rh.out_path,
+                       "--seed", ctx.seed, "--threads", threads,
                        "--subsets-shape", subsets["shape"], "--subsets-sweep", subsets["sweep"],
                        "--subsets-inject", subsets["inject"]])
     rep["model"] = "shred"
     hist = rep.get("act_hist", {})
     seeds = r.distinct - rep["loaded"]
-    if rep["loaded"] == 0 or rep["edges"] != rep["loaded"] or seeds <= 0 or seeds > 2000:
+    if rep["loaded"] == 0 or rep["edges"] < rep["loaded"] or seeds <= 0 or seeds > 2000:
         raise ToolError(f"cases: TLC found {r.distinct} states, the harness loaded {rep['loaded']} and ran {rep['edges']} cases")
+    if rep.get("histories_loaded") != n_hist or rep.get("histories") != n_hist:
+        raise ToolError(f"hist: {n_hist} histories expected, harness loaded {rep.get('histories_loaded')} and ran {rep.get('histories')}")
     # vacuity: every verdict class of every shredder must have been exercised
     need = [f"{fam}:{v}:{o}" for fam in ("sweep", "shape") for v in ("regular", "coding_only", "pets", "aont")
             for o in ("ok", "NotEnoughShreds")]
+    need += [f"hist:{v}:{o}" for v in ("regular", "coding_only", "pets", "aont") for o in ("ok", "NotEnoughShreds")]
     need += ["sweep:refused", "inject:xvariant:InvalidLayout", "inject:xvariant:Undecodable",
              "inject:xvariant:NotEnoughShreds", "inject:mixsize:InvalidLayout", "inject:mixroot:Undecodable"]
     missing = [k for k in need if not hist.get(k)]
@@ -102,13 +120,15 @@ def run(ctx):
     ctx.exhaustive = False      # index subsets and payload bytes are sampled
     ctx.notes["c11"] = {"cases": rep["loaded"], "index_subsets_decoded": rep.get("subsets"),
                         "regenerated_shreds_verified": rep.get("regenerated_shreds_verified"),
+                        "histories_on_one_object": n_hist, "calls_per_history": hist_len, "history_size_classes": hist_sizes,
                         "every_data_length_of": [f"{v}/{'parent' if p else 'no parent'}" for v, p in sweep_all],
                         "subsets_per_case": subsets}
     ctx.replay_report("shred", rep)
-    try:
-        os.remove(r.out_path)
-    except OSError:
-        pass
+    for pth in (r.out_path, rh.out_path):
+        try:
+            os.remove(pth)
+        except OSError:
+            pass
     return ctx.finish(rule="one case = (shredder variant, producer variant, slice: slot/index/last flag/parent/data length/"
                            "content class, held shape: how many positions of each range, failure injection); the harness "
                            "draws the concrete positions and bytes; arithmetic: every coded length 0..MAX+64")
